@@ -29,6 +29,45 @@ def load_frames():
     raise RuntimeError("FRAMES not found")
 
 
+MUTABLE_CALLS = ("dict", "list", "set", "defaultdict", "OrderedDict", "deque", "bytearray")
+
+
+def _is_mutable_expr(v):
+    return isinstance(v, (ast.Dict, ast.List, ast.Set, ast.ListComp, ast.DictComp, ast.SetComp)) or \
+        (isinstance(v, ast.Call) and isinstance(v.func, ast.Name) and v.func.id in MUTABLE_CALLS)
+
+
+def closed_ownership_scan(section):
+    """closed obligations (C12/C13): no mutable default argument and no class-level mutable attribute in the hand-written modules --
+    either would be one object shared by every call / every instance / every load of the process"""
+    for rel in ("auxiliary.py", "listener.py", "program.py", "utils.py", "error.py", "__init__.py"):
+        path = os.path.join(C.PKG, rel)
+        t1 = time.time()
+        try:
+            tree = ast.parse(open(path, newline=None).read())
+        except (OSError, SyntaxError) as e:
+            section["errors"].append("cannot parse %s: %s" % (path, e))
+            continue
+        sites = []
+        for n in ast.walk(tree):
+            if isinstance(n, (ast.FunctionDef, ast.Lambda)):
+                args = n.args
+                for d in list(args.defaults) + [d for d in args.kw_defaults if d is not None]:
+                    if _is_mutable_expr(d):
+                        sites.append("line %d: mutable default argument in %s()" % (d.lineno, getattr(n, "name", "lambda")))
+            if isinstance(n, ast.ClassDef):
+                for b in n.body:
+                    if isinstance(b, ast.Assign) and _is_mutable_expr(b.value):
+                        sites.append("line %d: class-level mutable attribute %s.%s" % (b.lineno, n.name, ", ".join(ast.unparse(t) for t in b.targets)))
+        rec = {"name": "ownership/no-shared-mutable-defaults:%s" % rel, "status": C.DISCHARGED if not sites else C.FAILED, "backend": "closed-eval",
+               "time_s": round(time.time() - t1, 4), "goal": "no mutable default argument and no class-level mutable attribute in blackbird/%s" % rel,
+               "props": ["C12", "C13"], "witness_families": ["history", "readonly_ops"]}
+        if sites:
+            rec["detail"] = "; ".join(sites[:8])
+            rec["counterexample"] = {"sites": sites[:20]}
+        section["obligations"].append(rec)
+
+
 def main():
     ap = argparse.ArgumentParser()
     ap.add_argument("--prop", required=True)
@@ -107,6 +146,8 @@ def main():
                 rec["counterexample"] = {"sites": [{"line": f[0], "what": f[1]} for f in fs[:10]]}
             section["obligations"].append(rec)
         section["notes"].extend("%s: %s" % (name, n) for n in sorted(set(ex.notes))[:12])
+    if a.prop in ("C12", "C13", "ALL") and want is None:
+        closed_ownership_scan(section)
     section["trusted"].append("frame engine: provenance of symbolic terms; calls without a contract are treated as pure and fresh (listed in notes); "
                               "distinct access paths denote distinct objects")
     section["assumptions"].append("A-sympy/A-cpython: free_symbols and program mode/parameter sets are the only unordered collections in scope; sorted()/set()/len()/dict "
